@@ -263,6 +263,10 @@ func (f *FSM) MustCopyWithState(state State) *FSM {
 				exists = true
 			}
 		}
+		// Exit states (e.g. canceled ones) are valid states to restore a machine in
+		if f.IsFinState(state) {
+			exists = true
+		}
 		if !exists {
 			panic(fmt.Sprintf("cannot set state, not exists  \"%s\" for \"%s\"", state, f.name))
 		}
@@ -454,6 +458,15 @@ func (f *FSM) StatesList() (states []State) {
 		for state := range allStates {
 			states = append(states, state)
 		}
+	}
+
+	return
+}
+
+// FinStatesList returns exit states of the machine, these states cannot be a source in this machine
+func (f *FSM) FinStatesList() (states []State) {
+	for state := range f.finStates {
+		states = append(states, state)
 	}
 
 	return
